@@ -31,6 +31,15 @@ Theorem C11_scan_sound :
 Proof. exact scan_disk_sound. Qed.
 Print Assumptions C11_scan_sound.
 
+(* 1b. a link met by the scan is recorded with the target AND the kind (symlink / hard link) it has now, also when only the
+       kind changed *)
+Theorem C11_scan_link_records_kind :
+  forall (d : sdisk) (name to : N) (hard : bool) (d' : sdisk),
+    scan_link d name to hard = Some d' ->
+    In (mkCL name to hard, true) (sd_links d') \/ In (mkCL name to hard) (sd_link_ins d').
+Proof. exact scan_link_records. Qed.
+Print Assumptions C11_scan_link_records_kind.
+
 (* 2. diff_verdict: diff exits 2 or 0, and 2 exactly when a counter other than `equal` is non-zero or the parity of an
       allocated stripe is not valid (a previous sync was incomplete) *)
 Theorem C11_diff_verdict :
